@@ -27,7 +27,7 @@ def gen_cfg(rng, restartable=True):
         "pair": rng.random() < 0.5,
         "xlabels": {k: (["_x_%s_%d" % (k, i) for i in range(rng.randint(1, 3))] if rng.random() < 0.3 else []) for k in XKINDS},
         "cell_family": rng.choice(["ortho", "ortho", "tri_pos", "tri_neg", "tri_mixed", "cubic", "tri_rotated"] if not restartable else
-                                  ["ortho", "ortho", "tri_pos", "tri_neg", "tri_mixed", "cubic"]),
+                                  ["ortho", "ortho", "tri_pos", "tri_neg", "tri_mixed", "cubic", "tri_big"]),
         "table_container": rng.choice(["list", "ndarray", "tuple"]),
     }
 
@@ -38,7 +38,9 @@ def gen_coeff(rng, tag):
         toks.append(str(rng.randint(-3, 3)))
     s = " ".join(toks) if rng.random() < 0.7 else "  ".join(toks)
     if rng.random() < 0.5:
-        s += "   # " + tag
+        # trailing comment of one or several words (force-field files list the atom types of the term there)
+        words = [tag] + [rng.choice(["C_R", "O_2", "H_", "Zr8f4", "N_3", "x1"]) for _ in range(rng.choice([0, 0, 1, 2, 3]))]
+        s += "   # " + " ".join(words)
     return s
 
 
